@@ -108,7 +108,7 @@ class C05(Property):
     def gen_step(self, world, rng):
         sess = rng.pick(self.SESSIONS)
         hs = world.session(sess)
-        handles = sorted(hs)
+        handles = sorted(k for k in hs if not k.startswith("_"))
         cfg = world.cfg
         if not handles or (len(handles) < 3 and rng.chance(0.2)):
             n = rng.randrange(1, cfg["max_rows"] + 1)
@@ -134,7 +134,14 @@ class C05(Property):
                     for t in range(1, ntomo + 1)}
             kinds = ["table", "array4", "file4"] if ntomo > 1 else ["list", "array3", "table", "array4", "file3", "file4", "df3"]
             k = rng.pick(kinds)
-            st = {"op": op, "sess": sess, "h": h, "dims": dims, "as": k, "dimfile": rng.pick(DIMFILES)}
+            prev = world.model.get("last_dims")
+            if prev is not None and set(prev) == set(dims) and rng.chance(0.7):
+                dims = prev  # the same dimensions again: lets the caller's table object be re-used
+                if world.model.get("last_dims_kind") in kinds and rng.chance(0.7):
+                    k = world.model["last_dims_kind"]
+            world.model["last_dims"] = dims
+            world.model["last_dims_kind"] = k
+            st = {"op": op, "sess": sess, "h": h, "dims": dims, "as": k, "dimfile": rng.pick(DIMFILES), "reuse": rng.chance(0.7)}
             if k.startswith("file"):
                 st["io"] = True
                 st["hint"] = {"read": 2, "stat": 1, "any": 4}
@@ -325,13 +332,13 @@ class C05(Property):
             arg = np.array(single)
             use = {t: single for t in tomos}
         elif kind == "df3":
-            arg = pd.DataFrame([single])
+            arg = self.pooled(world, step, "df3", single, lambda: pd.DataFrame([single]))
             use = {t: single for t in tomos}
         elif kind == "table":
-            arg = pd.DataFrame([[i] + dims[str(i)] for i in ids], columns=["tomo_id", "x", "y", "z"])
+            arg = self.pooled(world, step, "table", dims, lambda: pd.DataFrame([[i] + dims[str(i)] for i in ids], columns=["tomo_id", "x", "y", "z"]))
             use = {t: dims[str(t)] for t in tomos}
         elif kind == "array4":
-            arg = np.array([[i] + dims[str(i)] for i in ids], dtype=float)
+            arg = self.pooled(world, step, "array4", dims, lambda: np.array([[i] + dims[str(i)] for i in ids], dtype=float))
             use = {t: dims[str(t)] for t in tomos}
         else:
             p = self.abspath(world, step["dimfile"])
@@ -376,6 +383,18 @@ class C05(Property):
             raise Violation("op_raised", "flip_handedness:%s:%s" % (kind, out.describe()),
                             "fault-free flip_handedness(%s dimensions) raised %r\n%s" % (kind, out.exc, out.tb))
         return targets
+
+    def pooled(self, world, step, kind, content, make):
+        """the caller's own dimension table: created once per session and handed to later calls again, as a
+        notebook that keeps `dims = pd.DataFrame(...)` around would do"""
+        import json
+        pool = world.session(step["sess"]).setdefault("_dims", {"obj": None, "model": None, "pool": {}})["pool"]
+        key = kind + json.dumps(content, sort_keys=True)
+        if step.get("reuse") and key in pool:
+            world.probes["dimension_object_reused"] += 1
+            return pool[key]
+        pool[key] = make()
+        return pool[key]
 
     def op_copy(self, world, step):
         hs = world.session(step["sess"])
